@@ -3,7 +3,7 @@ sys.path.insert(0, '/verif')
 from mirsym.program import Program
 from mirsym.models import load_all
 from mirsym.explore import run_vc
-spec = importlib.import_module('specs.' + sys.argv[1])
+spec = importlib.import_module("specs." + sys.argv[1])
 M = load_all()
 prog = Program(spec.CRATE)
 sel = sys.argv[2] if len(sys.argv) > 2 else None
